@@ -44,6 +44,9 @@ def find_loop(func):
     return heads[0], sorted(l for l, _ in back)
 
 
+EXIT_MARK = "__left_the_loop__"
+
+
 def _mk(op, ty=None, args=(), raw=""):
     i = ir.Instr()
     i.op = op
@@ -99,7 +102,11 @@ class CutLoop:
             for l in f.order:
                 t = f.blocks[l][-1]
                 if t.op == "ret":
-                    f.blocks[l] = f.blocks[l][:-1] + [_mk("unreachable", raw="unreachable (cut)")]
+                    # what happens after the loop is not part of "one iteration": such a path hands
+                    # back the marker parameter (so that the path conditions of the OTHER paths,
+                    # those that reach the back edge, are kept by the DAG builder)
+                    f.blocks[l] = [_mk("ret", self.phis[i].ty, [ir.Val("v", EXIT_MARK, self.phis[i].ty)], "ret (left the loop)")]
+            f.params.append((self.phis[i].ty, EXIT_MARK, None))
             for lt in self.latches:
                 blk = f.blocks[lt]
                 if blk[-1].op != "br" or len(blk[-1].targets) != 1:
@@ -107,10 +114,13 @@ class CutLoop:
                 if lt == pred:
                     f.blocks[lt] = blk[:-1] + [_mk("ret", self.phis[i].ty, [o], "ret (next value of %%%s)" % self.phis[i].res)]
                 else:
-                    f.blocks[lt] = blk[:-1] + [_mk("unreachable", raw="unreachable (cut)")]
+                    f.blocks[lt] = blk[:-1] + [_mk("ret", self.phis[i].ty, [ir.Val("v", EXIT_MARK, self.phis[i].ty)], "ret (another back edge)")]
             f.ret_ty = self.phis[i].ty
             out.append(f)
         return out
+
+    def exit_mark_index(self):
+        return self.nparams + len(self.phis)
 
     def after_loop(self):
         f = self._clone(True)
@@ -118,3 +128,79 @@ class CutLoop:
             blk = f.blocks[lt]
             f.blocks[lt] = blk[:-1] + [_mk("unreachable", raw="unreachable (cut)")]
         return f
+
+
+def check_loop(func, mod, pre, candidates, summaries=None, result_goal=None):
+    """Inductive-invariant inference and checking for the single loop of `func` (vlib/linrel.py).
+
+    pre            entry constraints over the parameters p0, p1, ... (list of Lin <= 0)
+    candidates     [(label, f)]: f(v) -> Lin that must be <= 0, instantiated for every loop-carried value v
+    summaries      {callee: summary} for calls (see linrel.Walker.summaries)
+    result_goal    g(C, r) -> bool for the function's result after the loop (or None)
+    The candidate set is pruned (those not established on entry, then those not preserved by an
+    arbitrary iteration under the remaining ones) until it is inductive; then every operation of
+    the entry code, of one arbitrary iteration and of the code after the loop is walked under the
+    invariant, and its obligations (no wrap, no division by zero, call preconditions) collected.
+    Returns dict(invariant=[(phi name, label)], obligations, failures=[(what, node)], paths, phis)."""
+    from . import dag, linrel
+    from .linrel import var, K, entails_le0
+    cut = CutLoop(func)
+    maxv = (1 << 64) - 1
+    phi_vars = [var("p%d" % cut.phi_param_index(i)) for i in range(len(cut.phis))]
+    cand = {(i, j) for i in range(len(cut.phis)) for j in range(len(candidates))}
+    mark = var("p%d" % cut.exit_mark_index())
+
+    def inv(S):
+        out = []
+        for i in range(len(cut.phis)):
+            out += [-phi_vars[i], phi_vars[i] - K(maxv)]
+        for (i, j) in sorted(S):
+            out.append(candidates[j][1](phi_vars[i]))
+        return out
+
+    def run(fn, C0, goal):
+        dd = dag.build(fn, mod)
+        ww = linrel.Walker(C0)
+        ww.summaries.update(summaries or {})
+        ok = True
+        n = 0
+        for C, r in ww.value(dd.ret, list(C0)):
+            n += 1
+            if goal is not None and not goal(C, r):
+                ok = False
+        return ok, ww, n
+
+    for (i, j) in sorted(cand):
+        for fn in cut.entry_value(i):
+            ok, _, _ = run(fn, pre, lambda C, r, j=j: entails_le0(C, candidates[j][1](r)))
+            if not ok:
+                cand.discard((i, j))
+    changed = True
+    while changed:
+        changed = False
+        for (i, j) in sorted(cand):
+            for fn in cut.step_value(i):
+                ok, _, _ = run(fn, pre + inv(cand), lambda C, r, j=j: r == mark or entails_le0(C, candidates[j][1](r)))
+                if not ok:
+                    cand.discard((i, j))
+                    changed = True
+    fails, nob, paths = [], 0, 0
+    for i in range(len(cut.phis)):
+        for fn in cut.entry_value(i):
+            _, ww, n = run(fn, pre, None)
+            nob += ww.obligations
+            paths += n
+            fails += [(w, node) for w, node, _ in ww.failures]
+        for fn in cut.step_value(i):
+            _, ww, n = run(fn, pre + inv(cand), None)
+            nob += ww.obligations
+            paths += n
+            fails += [(w, node) for w, node, _ in ww.failures]
+    after_ok = None
+    if result_goal is not None:
+        after_ok, ww, n = run(cut.after_loop(), pre + inv(cand), result_goal)
+        nob += ww.obligations + 1
+        paths += n
+        fails += [(w, node) for w, node, _ in ww.failures]
+    return dict(invariant=[(cut.phis[i].res, candidates[j][0]) for (i, j) in sorted(cand)], obligations=nob, failures=fails,
+                paths=paths, phis=len(cut.phis), after_ok=after_ok)
